@@ -605,11 +605,16 @@ def random_case(args) -> Tuple[List[Tuple[str, str, str]], Dict[str, int]]:
         # label now
         from clematis.engine.types import Node as _Node
         st_sw = E.mk_store(graphs)
+        st_sw2 = E.mk_store(graphs)
+        if i % 2:
+            # twin variant: two isolated nodes whose ids sort first pin both labels at the head of the label map, so the
+            # swap changes which node carries a label without changing the labels or their order
+            for st_ in (st_sw, st_sw2):
+                st_.upsert_nodes("g:surface", [_Node(id="n:0", label="Apple"), _Node(id="n:00", label="unmentioned")])
 
         def swap(state):
             state["store"].upsert_nodes("g:surface", [_Node(id="n:a", label="unmentioned"), _Node(id="n:y", label="Apple")])
         seq_sw = call_seq([(cached, NOW_ISO), swap, (cached, NOW_ISO)], eps, order, scap, agent, text, st_sw)
-        st_sw2 = E.mk_store(graphs)
         swap({"store": st_sw2})
         fresh_sw = call_seq([(base_cfg, NOW_ISO)], eps, order, scap, agent, text, st_sw2)[0]
         counts["WarmCacheAfterLabelMove"] += 1
